@@ -109,7 +109,7 @@ def classify_refusal(inst, node):
 
 
 _LISTERS = []
-FORCE = {"via": False, "hostile": False, "fold": False}
+FORCE = {"via": False, "hostile": False, "fold": False, "rename": False}
 
 
 def reached_in_place(rec, root, rng):
@@ -184,6 +184,16 @@ def reached_by_folding(rec, full, rng):
         return None
 
 
+def _short_names(o):
+    if isinstance(o, str):
+        return o[0] if len(o) == 3 and o[2] == "k" and o[1] == o[0].swapcase() and o[0].isalpha() else o
+    if isinstance(o, tuple):
+        return tuple(_short_names(x) for x in o)
+    if isinstance(o, list):
+        return [_short_names(x) for x in o]
+    return o
+
+
 def run_instance(rec, inst, rng, ctx_sample):
     try:
         want = vs(inst.text)
@@ -220,7 +230,32 @@ def run_instance(rec, inst, rng, ctx_sample):
                 except Exception:
                     pass
             rec.arm("schema:all-rules-listed-before-the-verdict")
-        outer = locate(root, want)
+        want_here = want
+        renamed = False
+        if FORCE["rename"] or rng.random() < 0.2:
+            # 'all variables': names of several letters (theta, x1-style identifiers exist only through the node
+            # constructors), every node holding its own str object built at run time -- equal names, distinct objects
+            from mathy_core.expressions import VariableExpression as _V
+
+            def long_name(letter):
+                return "".join((letter, letter.swapcase(), "k"))
+
+            for nd in S.nodes_preorder(root):
+                if isinstance(nd, _V) and isinstance(nd.identifier, str) and len(nd.identifier) == 1:
+                    nd.identifier = long_name(nd.identifier)
+
+            def ren(sh):
+                if sh is None:
+                    return None
+                k_, p_, l_, r_ = sh
+                if k_ == "Variable" and isinstance(p_, str) and len(p_) == 1:
+                    p_ = long_name(p_)
+                return (k_, p_, ren(l_), ren(r_))
+
+            want_here = ren(want)
+            renamed = True
+            rec.arm("schema:variables-with-long-run-time-built-names")
+        outer = locate(root, want_here)
         if outer is None:
             rec.skip("schema subtree did not survive parsing in this context")
             continue
@@ -259,6 +294,8 @@ def run_instance(rec, inst, rng, ctx_sample):
             continue
         w = {"schema": inst.schema, "rule": inst.rule, "text": inst.text, "context": ctx, "full": full, "kind": inst.kind, "params": inst.params,
              "applicable": inst.applicable}
+        if renamed:
+            w["renamed"] = True
         if via is not None:
             w["reached_in_place"] = True
         if folded is not None:
@@ -292,6 +329,9 @@ def run_instance(rec, inst, rng, ctx_sample):
             verdict = "rewritten subtree not found at the original position"
         else:
             whole_before = A.v(S.shadow(root))
+            if renamed:
+                # the documented shapes are written with the instance's own letters: names mapped back before judging
+                got, whole_before = _short_names(got), _short_names(whole_before)
             verdict = inst.expect(want, got, rng) if not inst.schema.startswith("BM") else inst.expect(whole_before, got, rng)
         if verdict == "ok":
             rec.arm("schema-ok:" + inst.schema)
@@ -662,5 +702,6 @@ def replay(rec, cfg, w):
     FORCE["via"] = bool(w.get("reached_in_place"))
     FORCE["hostile"] = bool(w.get("numpy_invalid_raise"))
     FORCE["fold"] = bool(w.get("reached_by_folding"))
+    FORCE["rename"] = bool(w.get("renamed"))
     for i in range(12 if (FORCE["via"] or FORCE["fold"]) else 1):   # the in-place detour picks its swap node at random
         run_instance(rec, inst, cfg.rng(f"replay{i}"), [w["context"]] if FORCE["via"] and w.get("context") else inst.contexts)
